@@ -113,6 +113,21 @@ def _guid_id(tree, data):
     return data.guid if isinstance(data, Ent) else hash(data)
 
 
+def rec_ser_indata(node, data):
+    """keeps the whole object inside the standard 'data' field (an encoded string) and adds no key of its own"""
+    data["data"] = f"{node.data.name}|{node.data.size}"
+
+
+def rec_de_indata(parent, item):
+    name, _, size = item["data"].rpartition("|")
+    return Rec(name, int(size))
+
+
+def _f_rec_indata(obj, base):
+    base["data"] = f"{obj.name}|{obj.size}"
+    return base
+
+
 class DFam:
     def __init__(self, name, *, new_tree, mk, ser, de, fields, roundtrip=True, guid=False):
         self.name, self.new_tree, self.mk, self.ser, self.de, self.fields, self.roundtrip, self.guid = name, new_tree, mk, ser, de, fields, roundtrip, guid
@@ -145,6 +160,7 @@ DFAMS = {
     "str": DFam("str", new_tree=lambda: Tree("T"), mk=c05.mk_str, ser=None, de=None, fields=_f_plain),
     "rec_inplace": DFam("rec_inplace", new_tree=lambda: Tree("T"), mk=c05.mk_rec, ser=rec_ser_inplace, de=rec_de_fields, fields=_f_rec_inplace),
     "rec_new": DFam("rec_new", new_tree=lambda: Tree("T"), mk=c05.mk_rec, ser=rec_ser_new, de=rec_de_list, fields=_f_rec_new),
+    "rec_indata": DFam("rec_indata", new_tree=lambda: Tree("T"), mk=c05.mk_rec, ser=rec_ser_indata, de=rec_de_indata, fields=_f_rec_indata),
     "ent": DFam("ent", new_tree=lambda: Tree("T", calc_data_id=_guid_id), mk=c05.mk_ent, ser=ent_ser, de=ent_de, fields=_f_ent, guid=True),
     "rec_guid": DFam("rec_guid", new_tree=lambda: Tree("T"), mk=c05.mk_rec, ser=rec_ser_guid, de=rec_de_guid, fields=_f_rec_guid),
     "bag": DFam("bag", new_tree=lambda: Tree("T"), mk=c05._memo(lambda lab: Bag(lab)), ser=bag_ser, de=bag_de, fields=_f_bag),
@@ -393,6 +409,7 @@ def case_list(tier: str):
         out += [(f, s) for s in objs]
     out += [("rec_guid", s) for s in c05.idclone_specs(N - 1, ids=("id7", 0))] + [("rec_guid", s) for s in gen.explicit_id_specs(N - 1)]
     out += [("bag", s) for s in gen.plain_specs(N - 1)] + [("bag", s) for s in c05.idclone_specs(N - 1, ids=("id7", 0))]
+    out += [("rec_indata", s) for s in gen.plain_specs(N - 1)] + [("rec_indata", s) for s in c05.idclone_specs(N - 1, ids=("id7", 0))]
     out += [("ent", s) for s in gen.plain_specs(N)]
     out += [("ent", s) for s in c05.idclone_specs(N - 1)]
     for f in ("int", "tuple"):
@@ -456,8 +473,8 @@ def run(prop: str, tier: str, only=None) -> Result:
     N = 4 if tier == "quick" else 5
     res.bounds["Tree.to_dict_list / Node.to_dict / Tree.from_dict / Node.from_dict"] = (
         f"{len(cases)} trees, exhaustive: string trees <= {N} nodes over {{a,b,c}} with clones at every position, unicode labels <= {N - 1}, equal data under ids 1/2 <= {N}, "
-        f"one explicit id <= {N}, explicit-id clone groups (ids 'id7', 0, '') <= {N}; frozen-dataclass trees <= {N} with two inverse mapper pairs "
-        f"(in-place / new dict) incl. explicit ids; falsy (empty-container) dataclass objects <= {N - 1} incl. explicit-id clone groups; identity-hashed objects keyed by guid (calc_data_id) <= {N}; int and tuple data without mapper <= {N - 1} "
+        f"one explicit id <= {N}, explicit-id clone groups (ids 'id7', 0, '') <= {N}; frozen-dataclass trees <= {N} with three inverse mapper pairs "
+        f"(in-place / new dict / whole object inside 'data', no extra key) incl. explicit ids; falsy (empty-container) dataclass objects <= {N - 1} incl. explicit-id clone groups; identity-hashed objects keyed by guid (calc_data_id) <= {N}; int and tuple data without mapper <= {N - 1} "
         f"(structure only); each string/dataclass tree also after remove_children() of every inner node; round trip directly, through json.dumps/loads, and "
         f"through Node.from_dict below a childless node; {len(_emptied())} emptied trees"
     )
